@@ -1074,3 +1074,74 @@ def rt_probes_c06(req):
 
 
 RT['probes_c06'] = rt_probes_c06
+
+
+_DFLT_CALLEE_SRC = """
+import functools
+def target(x, y=0, *, z=0):
+    return ('target', x, y, z)
+def other(q):
+    return ('other', q)
+def dispatch(tag, *args, callee=target, **kwargs):
+    return callee(*args, **kwargs)
+def dispatch_pk(tag, callee=target, *args, **kwargs):
+    return callee(*args, **kwargs)
+def outer(*args, **kwargs):
+    return dispatch('t', *args, **kwargs)
+def outer_kw(*args, **kwargs):
+    return dispatch(*args, tag='t', **kwargs)
+bound = functools.partial(dispatch, 't')
+bound_pk = functools.partial(dispatch_pk, 't')
+class K(object):
+    def m(self, *args, callee=target, **kwargs):
+        return callee(*args, **kwargs)
+inst = K()
+"""
+
+
+def rt_dflt_callee(req):
+    """a callee that is a parameter WITH A DEFAULT is not known: the caller can replace it.  However the wrapper is entered
+    (directly, through a partial object binding another parameter, as a bound method, from an outer wrapper that passes
+    another argument) discovery must leave the stars alone; and what it reports must only accept calls that run - also
+    calls that pass another callee"""
+    from . import oracles as O
+    mod, fname = progs.load_module(_DFLT_CALLEE_SRC)
+    problems = []
+    try:
+        with warnings.catch_warnings():
+            warnings.simplefilter('ignore')
+            for name, want in (('dispatch', '(tag, *args, callee=TARGET, **kwargs)'), ('bound', '(*args, callee=TARGET, **kwargs)'),
+                               ('outer', '(*args, callee=TARGET, **kwargs)'), ('outer_kw', '(*, callee=TARGET, **kwargs)'),
+                               ('inst.m', '(*args, callee=TARGET, **kwargs)'), ('dispatch_pk', '(tag, callee=TARGET, *args, **kwargs)'),
+                               ('bound_pk', '(callee=TARGET, *args, **kwargs)')):
+                obj = mod
+                for part in name.split('.'):
+                    obj = getattr(obj, part)
+                got = sigtools.signature(obj)
+                gs = str(got).replace(repr(mod.target), 'TARGET')
+                if gs != want:
+                    problems.append('defaulted-callee-resolved: %s forwards to a parameter that has a default (the caller may pass another '
+                                    'callee); discovery reports %s, expected its own %s' % (name, gs, want))
+                # the soundness side: once the stars are replaced, every accepted call must run, whichever callee the caller passes
+                for a, k in () if gs == want else (((1,), {}), ((1, 2), {'z': 3}), ((7,), {'callee': mod.other}), ((1, 2), {'callee': mod.other}),
+                             ((), {'callee': mod.other, 'q': 1}), ((), {'x': 1})):
+                    if name in ('dispatch', 'dispatch_pk'):
+                        a = ('t',) + a
+                    if name in ('dispatch_pk', 'bound_pk') and 'callee' in k:
+                        continue
+                    try:
+                        got.bind(*a, **k)
+                    except TypeError:
+                        continue
+                    try:
+                        obj(*a, **k)
+                    except TypeError as e:
+                        problems.append('defaulted-callee-unsound: %s is reported as %s which accepts %r %r, but the call raises %s' % (
+                            name, gs, a, {x: getattr(v, '__name__', v) for x, v in k.items()}, e))
+                        break
+    finally:
+        progs.unload(fname)
+    return ('ok', tuple(problems[:3]), 'probed')
+
+
+RT['dflt_callee'] = rt_dflt_callee
